@@ -1198,8 +1198,18 @@ func (p *prog) genComplete(u *mup) *op {
 	}
 	order := append([]int{}, ns...)
 	k := u.bucket + "/" + u.key
-	return &op{kind: "complete-mpu", class: class, desc: fmt.Sprintf("POST /%s/%s?uploadId=<U%d> parts=%v", u.bucket, u.key, u.slot, order), mut: true, bucket: u.bucket, keys: []string{k}, dom: "up", slot: u.slot, body: "xml",
-		req: p.upReq("POST", u, nil, nil, func(s *side) []byte {
+	// one completion in three declares the size of the object it expects (x-amz-mp-object-size): right, or wrong
+	var chdr s3c.H
+	switch p.r.Intn(5) {
+	case 0:
+		chdr = s3c.H{{"X-Amz-Mp-Object-Size", strconv.Itoa(len(whole))}}
+		class += "+declared-size-right"
+	case 1:
+		chdr = s3c.H{{"X-Amz-Mp-Object-Size", strconv.Itoa(len(whole) + 1 + p.r.Intn(3))}}
+		class += "+declared-size-wrong"
+	}
+	return &op{kind: "complete-mpu", class: class, desc: fmt.Sprintf("POST /%s/%s?uploadId=<U%d> parts=%v %v", u.bucket, u.key, u.slot, order, chdr), mut: true, bucket: u.bucket, keys: []string{k}, dom: "up", slot: u.slot, body: "xml",
+		req: p.upReq("POST", u, nil, chdr, func(s *side) []byte {
 			var parts []s3c.Part
 			for _, n := range order {
 				e := s.etag(u.slot, n)
